@@ -47,6 +47,9 @@ func (m *ModuleMap) Remove(name string) {
 // Get returns an import module identified by name. It returns if the name is
 // not found.
 func (m *ModuleMap) Get(name string) Importable {
+	if m == nil {
+		return nil
+	}
 	return m.m[name]
 }
 
